@@ -18,6 +18,26 @@ and bounds=, results of cx / cx_partitions), scheduler 'synchronous':
     partition_bounds, total_bounds, index total_bounds, and per key the rows of every
     partition of cx_partitions[key] and cx[key] and pandas' cx[key].
 
+Beyond the small integer grid (section D of gen_specs): frames whose coordinates are ordinary
+float64 numbers (k/7, 0.1*a + 0.2*b, 53 random bits of both signs, 1234567 + a 32-bit
+fraction, 2^53 + 2k, multiples of 1.1e-11, 1e6 + k*2^-30) through the same provenances
+(parquet round trips always), with cx keys one side of which lies exactly ON the extreme
+coordinate of a partition (box and partition box only touch), one ulp beyond it, with
+omitted ends, and right frames of sjoin whose lines / triangles start exactly at the points
+of the left frame; read_parquet_dask(bounds=B) must hold every written row that meets B.
+Every number of such a case is an exact integer under one per-case power-of-two scale
+(c06_util.log2scale / znum), so the kernel-evaluated model and all comparisons stay free
+of any tolerance.
+
+Histories (section E): families of 2-3 pandas frames that differ ONLY in the geometry
+content - sibling positional slices of one parent array (shared Arrow buffers, different
+offset, equal length and null count), one coordinate of one row, which row is missing and
+which one empty, which column is active - with the same index and payload, all turned
+into Dask collections (frame and series) before any is used and all kept referenced; each
+is then examined like any other frame against ITS pandas frame; likewise one Dask frame
+sjoin-ed with right frames that are sibling slices.  (Model/DaskRegistry.v,
+C06_registry_sound: correct iff the token separates the frames.)
+
 Row order: cx / bounds / area / length / intersects_bounds are compared in order (the
 partitions are visited in ascending order and filtered in place); sjoin and
 pack_partitions are compared as multisets of complete rows.
@@ -249,7 +269,323 @@ def gen_specs(rep, tier):
             steps += [['cache'], ['filter_gt', rng.randint(0, n)], ['persist']]
         keys = rng.sample(KEYS, 3) + [rand_key(rng)]
         spec(kind, els, k2, els2, rng.choice(['g', 'g', 'h']), steps, keys)
+    # D. coordinates that are not small integers (computed decimals needing 17 significant
+    #    digits, 53 random bits, both signs, 7 integer digits + a long fraction, 2^53, 1e-11,
+    #    extents of 2^-30 at 1e6), query boxes and right shapes that TOUCH the extreme rows
+    specs += float_specs(rep, quick)
+    # E. several frames alive in one process that differ only in the geometry content
+    #    (sibling slices of one parent array, one coordinate, which row is missing, which
+    #    column is active)
+    specs += family_specs(rep, quick)
     return specs
+
+
+# --------------------------------------------------------------------------
+# D. arbitrary float64 coordinates
+# --------------------------------------------------------------------------
+FPOOLS = ['dec', 'rnd', 'mixed', 'big', 'small', 'tight']
+
+
+def fcoord(rng, pool):
+    if pool == 'dec':        # what ordinary arithmetic produces: k/7, k*0.1, 0.1*a + 0.2*b, k/100
+        r = rng.randrange(4)
+        if r == 0:
+            return rng.randint(0, 56) / 7
+        if r == 1:
+            return rng.randint(0, 80) * 0.1
+        if r == 2:
+            return 0.1 * rng.randint(0, 40) + 0.2 * rng.randint(0, 20)
+        return rng.randint(0, 800) / 100
+    if pool == 'rnd':        # 53 random bits in [-4, 4)
+        return rng.getrandbits(53) / 2.0 ** 50 - 4.0
+    if pool == 'mixed':      # seven integer digits and a 32-bit fraction
+        return 1234567.0 + rng.getrandbits(35) / 2.0 ** 32
+    if pool == 'big':        # spacing 2 (above 2^53)
+        return 2.0 ** 53 + 2.0 * rng.randint(0, 40)
+    if pool == 'small':      # 1e-11 .. 1e-9
+        return rng.randint(1, 80) * 1.1e-11
+    if pool == 'tight':      # extent 2^-24 at magnitude 1e6
+        return 1.0e6 + rng.randint(0, 64) * 2.0 ** -30
+    raise ValueError(pool)
+
+
+def float_frame(rng, kind, pool, n=6):
+    """n rows with coordinates of one pool; row 1 missing, row 4 empty (missing for points)"""
+    k2 = 'line' if kind == 'point' else 'point'
+
+    def box():
+        x = sorted(fcoord(rng, pool) for _ in range(2))
+        y = sorted(fcoord(rng, pool) for _ in range(2))
+        return (x[0], y[0], x[1], y[1])
+    els, els2 = [], []
+    for i in range(n):
+        els.append(None if i == 1 else U.empty_el(kind) if i == 4 else U.shape(kind, *box()))
+        els2.append(None if i == 3 else U.shape(k2, *box()))
+    return els, k2, els2
+
+
+def touch_keys(rng, els, cuts, nkeys):
+    """cx keys with one side exactly ON the extreme coordinate of a partition (from outside:
+    box and partition box only touch), one ulp beyond it, with omitted ends, and boxes cut
+    through the data; LO / HI lie beyond all coordinates"""
+    import math
+    boxes = [U.el_box(e) for e in els]
+    have = [b for b in boxes if b is not None]
+    if not have:
+        return [(0.0, 1.0, 0.0, 1.0)]
+    lo = min(min(b[0], b[1]) for b in have)
+    hi = max(max(b[2], b[3]) for b in have)
+    LO, HI = lo - (hi - lo) - 1.0, hi + (hi - lo) + 1.0
+    chunks = [[b for b in boxes[a:z] if b is not None] for a, z in zip(cuts[:-1], cuts[1:])]
+    chunks = [c for c in chunks if c] or [have]
+    keys = []
+    sides = ['x1', 'x0', 'y1', 'y0']
+    rng.shuffle(sides)
+    for i in range(nkeys):
+        c = rng.choice(chunks)
+        side = sides[i % 4]
+        e = {'x1': max(b[2] for b in c), 'x0': min(b[0] for b in c),
+             'y1': max(b[3] for b in c), 'y0': min(b[1] for b in c)}[side]
+        form = ('touch', 'touch', 'omitted', 'ulp-out', 'cut')[i % 5] if i else 'touch'
+        if form == 'ulp-out':
+            e = math.nextafter(e, math.inf if side in ('x1', 'y1') else -math.inf)
+        if form == 'cut':
+            o = rng.choice(have)
+            keys.append(tuple(rng.choice([(e, o[2], LO, o[3]), (o[0], e, o[1], HI),
+                                          (o[0], HI, e, o[1]), (LO, o[2], o[3], e)])))
+            continue
+        A, Z = (None, None) if form == 'omitted' else (LO, HI)
+        keys.append({'x1': (e, Z, A, Z), 'x0': (A, e, A, Z),
+                     'y1': (A, Z, e, Z), 'y0': (A, Z, A, e)}[side])
+    return keys
+
+
+def float_specs(rep, quick):
+    rng = rep.rng
+    out = []
+    others = [k for k in G.KINDS if k != 'point']
+    for pi, pool in enumerate(FPOOLS):
+        for r in range(1 if quick else 8):
+            kind = 'point' if (pi + rep.seed + r) % 2 == 0 else rng.choice(others)
+            if pool == 'big' and r == 0:
+                kind = 'point'     # every run meets single-point partitions at 2^53
+            els, k2, els2 = float_frame(rng, kind, pool)
+            cuts = rng.choice(U.compositions(6)[1:] + [[0, 0, 2, 2, 6], [0, 3, 3, 6]])
+            base = ['from_delayed', cuts]
+            act = 'g' if kind == 'point' or rng.random() < 0.7 else 'h'
+            keys = touch_keys(rng, els if act == 'g' else els2, cuts, 5 if quick else 8)
+            k0 = keys[0]                          # no omitted end
+            bx = [min(k0[0], k0[1]), min(k0[2], k0[3]), max(k0[0], k0[1]), max(k0[2], k0[3])]
+            menu = [[['from_pandas', rng.randint(1, 4)]],
+                    [base],
+                    [base, ['pack', rng.randint(1, 3), rng.choice([5, 15])]],
+                    [base, ['pack_to_parquet', 2]],
+                    [base, ['parquet', act, None]],
+                    [base, ['parquet', g_or_none0(act), bx]],
+                    [base, ['parquet', act, bx]],
+                    [base, ['cache'], ['filter_gt', rng.randint(0, 2)]],
+                    [base, ['cache'], ['cols', ['h', 'v', 'g']], ['persist']],
+                    [base, ['parquet', None, None], ['parquet', None, None]],
+                    [['from_concat', rng.randint(1, 5)]]]
+            g_or_none = None if act == 'g' else 'h'     # keep the column the keys were made for
+            menu = [[st if st != ['parquet', None, None] else ['parquet', g_or_none, None]
+                     for st in steps] for steps in menu]
+            provs = [[base, ['parquet', g_or_none, None]]] + rng.sample(menu, 2 if quick else 6)
+            if pool == 'big' and r == 0:
+                provs.append([['from_delayed', [0, 1, 2, 3, 4, 5, 6]]])
+            for steps in provs:
+                out.append({'kind_g': kind, 'els_g': els, 'kind_h': k2, 'els_h': els2,
+                            'active': act, 'steps': steps, 'keys': [list(k) for k in keys],
+                            'float': pool})
+    return out
+
+
+def g_or_none0(act):
+    return None if act == 'g' else 'h'
+
+
+# sjoin(ddf, right) raises ZeroDivisionError when a partition of the left frame holds a single
+# distinct point with |coordinate| >= 2^53 (HilbertRtree of that partition: x + 1.0 == x, the
+# zero extent cannot be widened) while the pandas join of the whole frame succeeds.  True:
+# reported as the violation 'sjoin-raises:zero-extent-partition-at-2^53'; False: counted in the
+# evidence as an observation (the decision is the framework owner's, see the final report)
+REPORT_ZERO_EXTENT_2_53 = False
+
+
+def zero_extent_at_2_53(pb):
+    for b in np.asarray(pb, dtype='float64').reshape(-1, 4):
+        if not np.isnan(b).any() and b[0] == b[2] and b[1] == b[3] and np.abs(b).max() >= 2.0 ** 53:
+            return True
+    return False
+
+
+def touching_right(bounds_rows, ev):
+    """a right frame of lines (or triangles) that start exactly at the points of the left
+    frame and run away from all of them"""
+    from spatialpandas import GeoDataFrame
+    pts = [(float(b[0]), float(b[1])) for b in bounds_rows if not np.isnan(b).any()][:5]
+    if not pts:
+        pts = [(0.0, 0.0)]
+    hi = max(max(p) for p in pts)
+    lo = min(min(p) for p in pts)
+    HI = hi + (hi - lo) + 1.0
+    if ev % 2:
+        kind, els = 'line', [[x, y, HI, HI] for x, y in pts]
+    else:
+        kind, els = 'polygon', [[[x, y, HI, y, HI, HI, x, y]] for x, y in pts]
+    els.insert(1, None)
+    right = GeoDataFrame({'rg': G.make_array(kind, els),
+                          'rv': [300 + i for i in range(len(els))]})
+    return 'touching-' + kind, right
+
+
+# --------------------------------------------------------------------------
+# E. sibling frames
+# --------------------------------------------------------------------------
+def family_specs(rep, quick):
+    rng = rep.rng
+    out = []
+    modes = ['slices', 'slices', 'values', 'nulls', 'active']
+    for mi, mode in enumerate(modes * (1 if quick else 6)):
+        kind = G.KINDS[(mi + rep.seed + mi // len(modes)) % len(G.KINDS)] if mi else 'line'
+        if mode == 'slices' and mi % len(modes) == 1:
+            kind = 'point'
+        k2 = 'line' if kind == 'point' else 'point'
+        s = lambda *b: U.shape(kind, *b)
+        s2 = lambda *b: U.shape(k2, *b)
+        members = []
+        nm = 2 if mode in ('nulls', 'active') else 3
+        for i in range(nm):
+            dx, dy = (2 * i, i) if mode == 'slices' else (0, 0)
+            g = [s(dx, dy, 1 + dx, 1 + dy), None, s(1 + dx, 2 + dy, 3 + dx, 3 + dy),
+                 s(dx, 3 + dy, 2 + dx, 4 + dy)]
+            h = [s2(1 + dx, 1 + dy, 2 + dx, 1 + dy), s2(dx, dy, dx, 2 + dy),
+                 s2(2 + dx, 3 + dy, 3 + dx, 4 + dy), s2(dx, 2 + dy, 1 + dx, 3 + dy)]
+            act = 'g'
+            if mode == 'values':       # one coordinate of one row
+                g[2] = s(1, 2, 3, 3 + i)
+                h[3] = s2(0, 2, 1, 3 + i)
+            if mode == 'nulls' and i == 1:      # which row is missing (and which one empty)
+                if kind == 'point':
+                    g[1], g[2] = g[2], g[1]
+                else:
+                    g[3] = []
+                    members[0]['els_g'][3] = None
+                    members[0]['els_g'][1] = []
+            if mode == 'active':
+                act = 'gh'[i]
+            members.append({'els_g': g, 'els_h': h, 'active': act})
+        order = list(range(nm))
+        rng.shuffle(order)
+        out.append({'kind_g': kind, 'kind_h': k2, 'els_g': members[0]['els_g'],
+                    'els_h': members[0]['els_h'], 'active': 'g',
+                    'family': {'mode': mode, 'members': members, 'sliced': mode == 'slices',
+                               'npartitions': rng.randint(1, 3), 'order': order,
+                               'reverse_creation': rng.random() < 0.5},
+                    'steps': [['siblings', mode]],
+                    'keys': [list(k) for k in rng.sample(KEYS[:2] + KEYS[6:9], 2)]})
+    # right frames of sjoin that are sibling slices
+    for r in range(1 if quick else 4):
+        left = [[1 + (i % 4) * 2, 1 + (i // 4) * 2] for i in range(8)]
+        left[rng.randrange(8)] = None
+        rights = [[[[2 * i, j, 2 * i + 2, j, 2 * i + 2, j + 2, 2 * i, j + 2, 2 * i, j]]
+                   for j in (0, 2)] + [None] for i in range(3)]
+        out.append({'kind_g': 'point', 'els_g': left, 'kind_h': 'line',
+                    'els_h': [[x, 0, x + 1, 1] for x in range(8)], 'active': 'g',
+                    'right_family': {'members': rights, 'npartitions': rng.randint(1, 3)},
+                    'steps': [['sibling-rights']], 'keys': [list(KEYS[0])]})
+    return out
+
+
+def member_frames(spec):
+    fam = spec['family']
+    ms = fam['members']
+    if fam['sliced']:
+        n = len(ms[0]['els_g'])
+        pg = G.make_array(spec['kind_g'], sum((m['els_g'] for m in ms), []))
+        ph = G.make_array(spec['kind_h'], sum((m['els_h'] for m in ms), []))
+        return [U.make_frame_arrays(pg[i * n:(i + 1) * n], ph[i * n:(i + 1) * n], m['active'])
+                for i, m in enumerate(ms)]
+    return [U.make_frame(spec['kind_g'], m['els_g'], spec['kind_h'], m['els_h'], active=m['active'])
+            for m in ms]
+
+
+def run_family(ctx, spec):
+    """all members become Dask collections first (and stay referenced), then each one is
+    examined like any other frame against ITS pandas frame"""
+    import dask.dataframe as dd
+    rep = ctx.rep
+    fam = spec['family']
+    dfs = member_frames(spec)
+    npart = fam['npartitions']
+    idx = list(range(len(dfs)))
+    created = {}
+    for i in (idx[::-1] if fam.get('reverse_creation') else idx):
+        created[i] = dd.from_pandas(dfs[i], npartitions=npart)
+    series = {i: dd.from_pandas(dfs[i].geometry, npartitions=npart) for i in idx}
+    rep.count('sibling-family:' + fam['mode'])
+    sigs = [U.frame_sig(d) for d in dfs]
+    if len(set(map(repr, sigs))) + (fam['mode'] == 'active') <= 1:
+        rep.count('sibling-family-without-difference')
+    for i in fam['order']:
+        m = fam['members'][i]
+        mspec = dict(spec, els_g=m['els_g'], els_h=m['els_h'], active=m['active'], member=i)
+        check_frame(ctx, created[i], mspec, dfs[i], True, True)
+        check_series_member(ctx, series[i], dfs[i].geometry, mspec)
+    del created, series
+
+
+def check_series_member(ctx, ds, s, spec):
+    rep = ctx.rep
+    rep.count('sibling-series-checked')
+    try:
+        tb = tuple(float(v) for v in ds.total_bounds)
+        rtb = tuple(float(v) for v in s.total_bounds)
+        ok = U.same_floats(tb, rtb)
+        ok = ok and U.frame_sig(ds.compute()) == U.frame_sig(s)
+        ok = ok and U.same_floats(np.asarray(ds.bounds.compute()), np.asarray(s.bounds))
+        ok = ok and U.same_floats(np.asarray(ds.length.compute()), np.asarray(s.length))
+        xs, ys = U.key_slices(tuple(spec['keys'][0]))
+        ok = ok and U.frame_sig(ds.cx[xs, ys].compute()) == U.frame_sig(s.cx[xs, ys])
+    except Exception as e:
+        viol(ctx, 'series-raises:siblings', f'{type(e).__name__}: {str(e)[:200]}', spec)
+        return
+    if not ok:
+        viol(ctx, 'series-differs:siblings',
+             f'dd.from_pandas of GeoSeries number {spec["member"]} of a family of sibling series '
+             f'(mode {spec["family"]["mode"]}) does not answer like that series '
+             f'(total_bounds {tb}, pandas {rtb})', spec)
+
+
+def run_right_family(ctx, spec):
+    """one Dask frame joined with right frames that are sibling slices of one array: all the
+    joins are built first, then computed"""
+    import dask
+    import dask.dataframe as dd
+    from spatialpandas import GeoDataFrame, sjoin
+    rep = ctx.rep
+    fam = spec['right_family']
+    ms = fam['members']
+    n = len(ms[0])
+    parent = G.make_array('polygon', sum(ms, []))
+    rights = [GeoDataFrame({'rg': parent[i * n:(i + 1) * n], 'rv': np.arange(n) + 100})
+              for i in range(len(ms))]
+    df = U.make_frame(spec['kind_g'], spec['els_g'], spec['kind_h'], spec['els_h'], active='g')
+    X = dd.from_pandas(df, npartitions=fam['npartitions'])
+    rep.evaluations += 1
+    rep.count('sibling-rights-family')
+    for how in ('inner', 'left'):
+        joins = [sjoin(X, r, how=how) for r in rights]
+        got = dask.compute(*joins) if how == 'inner' else [j.compute() for j in joins[::-1]][::-1]
+        for i, (g, r) in enumerate(zip(got, rights)):
+            want = sjoin(df, r, how=how)
+            if sorted(U.frame_sig(g)) != sorted(U.frame_sig(want)):
+                viol(ctx, f'sjoin-differs:{how}:sibling-rights',
+                     f'sjoin(ddf, right number {i} of {len(rights)} sibling slices, how={how!r}) '
+                     f'differs from the pandas join: dask {len(g)} rows, pandas {len(want)}',
+                     spec, how=how, member=i)
+            elif len(want):
+                rep.nontrivial(('sibling-rights', how, i, repr(spec['els_g'])))
 
 
 def rand_key(rng):
@@ -273,12 +609,15 @@ class Unclaimed(Exception):
 
 
 def apply_steps(df, steps, tmpdirs):
-    """-> (Dask frame, expected pandas frame or None, ordered?, index kept?)"""
+    """-> (Dask frame, expected pandas frame or None, ordered?, index kept?, ids of the rows
+    the frame must at least hold (after read_parquet_dask(bounds=)) or None)"""
     import dask.dataframe as dd
     from spatialpandas.io import read_parquet_dask
-    X, expect, ordered, index_kept = None, df, True, True
+    X, expect, ordered, index_kept, must_have = None, df, True, True, None
     for st in steps:
         op = st[0]
+        if op in ('filter_isin', 'filter_gt', 'cxp', 'cx'):
+            must_have = None
         if op == 'from_delayed':
             X = U.dask_from_chunks(df, st[1])
         elif op == 'from_pandas':
@@ -325,9 +664,16 @@ def apply_steps(df, steps, tmpdirs):
                 expect = expect.set_geometry(st[1]) if expect is not None else None
             if st[2] is not None:
                 kw['bounds'] = tuple(st[2])
-                expect = None
             nbefore = len(X.to_delayed())
             X = read_parquet_dask(path, **kw)
+            if st[2] is not None:
+                if expect is not None:
+                    # read_parquet_dask(bounds=B) keeps the partitions that can hold a row
+                    # meeting B: every row of the written frame that intersects B is there
+                    b = tuple(st[2])
+                    e2 = expect if st[1] is not None else expect.set_geometry(U.active_name(X))
+                    must_have = set(int(v) for v in e2.cx[b[0]:b[2], b[1]:b[3]]['v'].tolist())
+                expect = None
             if st[2] is not None and len(X.to_delayed()) < nbefore:
                 ctx_counts.append('bounds=-dropped-partitions')
             if st[1] is None and expect is not None:
@@ -353,7 +699,7 @@ def apply_steps(df, steps, tmpdirs):
             expect = expect.cx[xs, ys] if expect is not None else None
         else:
             raise ValueError(op)
-    return X, expect, ordered, index_kept
+    return X, expect, ordered, index_kept, must_have
 
 
 # --------------------------------------------------------------------------
@@ -371,7 +717,7 @@ def viol(ctx, sig, what, spec, **kw):
     ctx.rep.violation(sig, what, {'spec': spec, **kw})
 
 
-def check_frame(ctx, X, spec, expect, ordered, index_kept):
+def check_frame(ctx, X, spec, expect, ordered, index_kept, must_have=None):
     import dask
     from spatialpandas import sjoin
     rep = ctx.rep
@@ -406,6 +752,14 @@ def check_frame(ctx, X, spec, expect, ordered, index_kept):
             viol(ctx, 'active-geometry:' + last,
                  f'after {prov} the computed frame has active geometry {U.active_name(ref)!r}, '
                  f'pandas has {U.active_name(expect)!r}', spec)
+            return
+    if must_have is not None:
+        rep.count('bounds=-rows-required', len(must_have))
+        lost = sorted(must_have - set(int(v) for v in ref['v'].tolist()))
+        if lost:
+            viol(ctx, 'bounds=-loses-row:' + last,
+                 f'read_parquet_dask(bounds=...) after {prov} lacks rows {lost} of the written '
+                 'frame although they intersect the box (pandas cx on the written frame)', spec)
             return
     an = U.active_name(X)
     if an is None or an != U.active_name(ref):
@@ -554,18 +908,22 @@ def check_frame(ctx, X, spec, expect, ordered, index_kept):
 
     # ---- the model
     if len(per_key) == len(used_keys):
+        # every number of the case as an exact integer under one power-of-two scale
+        sk = U.log2scale([bounds_rows, pb, tb, ftb, [list(key) for key in used_keys]])
+        if sk > 60:
+            rep.count('model-case-scale>2^60')
         rows_by_part, k = [], 0
         for p in parts:
             rows = []
             for j in range(len(p)):
-                rows.append((C.Nat(int(vs[k])), U.cbox(bounds_rows[k]),
+                rows.append((C.Nat(int(vs[k])), U.cbox_k(bounds_rows[k], sk),
                              [bits[k] for bits in hit_bits]))
                 k += 1
             rows_by_part.append(rows)
         ctx.cases.append((rows_by_part, [C.Nat(x) for x in keys_arr],
-                          [U.ckey(tuple(key)) for key in used_keys]))
-        ctx.results.append(([U.cbox(r) for r in pb], U.cbox(tb), [C.fnum(v, U.SCALE) for v in ftb],
-                            per_key))
+                          [U.ckey_k(tuple(key), sk) for key in used_keys]))
+        ctx.results.append(([U.cbox_k(r, sk) for r in pb], U.cbox_k(tb, sk),
+                            [U.znum(v, sk) for v in ftb], per_key))
         ctx.metas.append(spec)
 
     # ---- every geometry column, not only the active one (column selection ddf[c])
@@ -580,6 +938,10 @@ def check_frame(ctx, X, spec, expect, ordered, index_kept):
     kind_active = spec['kind_g'] if an == 'g' else spec['kind_h']
     if kind_active == 'point' and 'g' in ref.columns and 'h' in ref.columns:
         rname, right = ctx.rights[rep.evaluations % len(ctx.rights)]
+        if spec.get('float'):
+            # shapes that START exactly at points of the left frame (the extreme rows of the
+            # partitions among them): the partition box and the shape's box only touch
+            rname, right = touching_right(bounds_rows, rep.evaluations)
         for how in ('inner', 'left'):
             try:
                 pj = sjoin(ref, right, how=how)
@@ -591,6 +953,17 @@ def check_frame(ctx, X, spec, expect, ordered, index_kept):
                 djparts = U.compute_parts(dj)
                 djc = dj.compute()
             except Exception as e:
+                if isinstance(e, ZeroDivisionError) and zero_extent_at_2_53(pb):
+                    # finding on the unmodified tree (reported): the partition's own spatial
+                    # index cannot widen a zero extent at |coordinate| >= 2^53
+                    if REPORT_ZERO_EXTENT_2_53:
+                        viol(ctx, 'sjoin-raises:zero-extent-partition-at-2^53',
+                             f'sjoin(ddf, right, how={how!r}) raised ZeroDivisionError: a partition '
+                             'holds a single distinct point with |coordinate| >= 2^53; the pandas '
+                             'join of the concatenated frame succeeds', spec, how=how, right=rname)
+                    else:
+                        rep.count('observation:sjoin-raises-zero-extent-partition-at-2^53')
+                    continue
                 viol(ctx, f'sjoin-raises:{how}:' + last,
                      f'sjoin(ddf, right, how={how!r}) raised {type(e).__name__}: {str(e)[:200]} '
                      'while the pandas join succeeds', spec, how=how, right=rname)
@@ -610,13 +983,14 @@ def check_frame(ctx, X, spec, expect, ordered, index_kept):
                    zip(inner['v_left' if 'v_left' in inner.columns else 'v'].tolist(),
                        inner['index_right'].tolist())]
             lparts, k = [], 0
+            rb = np.asarray(right.geometry.bounds.values, dtype='float64')
+            sk2 = U.log2scale([bounds_rows, rb])
             for p in parts:
-                lparts.append([(C.Nat(int(vs[k + j])), U.cbox(bounds_rows[k + j]))
+                lparts.append([(C.Nat(int(vs[k + j])), U.cbox_k(bounds_rows[k + j], sk2))
                                for j in range(len(p))])
                 k += len(p)
-            rb = np.asarray(right.geometry.bounds.values, dtype='float64')
             rmiss = [bool(x) for x in right.geometry.isna()]
-            rrows = [(C.Nat(i), U.cbox(rb[i]), rmiss[i]) for i in range(len(right))]
+            rrows = [(C.Nat(i), U.cbox_k(rb[i], sk2), rmiss[i]) for i in range(len(right))]
 
             def codes(f):
                 ir = f['index_right'].tolist()
@@ -725,19 +1099,25 @@ def run_spec(ctx, spec):
     from spatialpandas import GeoDataFrame  # noqa: F401
     rep = ctx.rep
     tmpdirs = []
+    if 'family' in spec:
+        run_family(ctx, spec)
+        return
+    if 'right_family' in spec:
+        run_right_family(ctx, spec)
+        return
     try:
         off = spec.get('offset', 0)
         df = U.make_frame(spec['kind_g'], [U.shift(e, off) for e in spec['els_g']],
                           spec['kind_h'], [U.shift(e, off) for e in spec['els_h']],
                           active=spec['active'])
         try:
-            X, expect, ordered, index_kept = apply_steps(df, spec['steps'], tmpdirs)
+            X, expect, ordered, index_kept, must = apply_steps(df, spec['steps'], tmpdirs)
         except Unclaimed as e:
             rep.count('unclaimed:' + str(e)[:40])
             return
         while ctx_counts:
             rep.count(ctx_counts.pop())
-        check_frame(ctx, X, spec, expect, ordered, index_kept)
+        check_frame(ctx, X, spec, expect, ordered, index_kept, must)
     finally:
         for d in tmpdirs:
             shutil.rmtree(d, ignore_errors=True)
@@ -805,7 +1185,11 @@ def run(rep):
                 '<= 6 rows into consecutive partitions incl. empty ones x provenances (from_delayed, '
                 'from_pandas, filters, cached-then-filtered, column selection, set_geometry, persist, '
                 'pack_partitions, parquet round trip with/without geometry= and bounds=, results of '
-                'cx / cx_partitions) x 3-7 cx keys; one evaluation = one Dask frame with all '
+                'cx / cx_partitions) x 3-7 cx keys; + float64 frames of 6 coordinate pools (many-digit '
+                'decimals, 53 random bits, 2^53, 1e-11, 2^-30 extents at 1e6) x provenances with keys / '
+                'right shapes touching the partition extremes; + families of sibling frames (slices of '
+                'one parent array, one coordinate, missing/empty swap, active column) alive together; '
+                'one evaluation = one Dask frame with all '
                 'operations; non-trivial = some key selects at least one row; distinct = distinct '
                 '(frame, provenance, keys)')
     ctx = Ctx(rep)
